@@ -132,6 +132,17 @@ def run(ctx):
                 ref2 = q.quantize_activation(ref2.dequantize() if isinstance(ref2, QTensor) else ref2, q.qtypes[aq], qm.output_scale).dequantize()
             if bits_of(od2) != bits_of(ref2):
                 ctx.spec_failures.append(("C11:optimizer-step-not-reflected", dict(cfg)))
+            # other update styles: through .data (no version bump), then again a graph-less forward
+            qm(x.detach())
+            qm.weight.data.mul_(0.5).add_(0.125)
+            new_q = q.quantize_weight(qm.weight, qm.weight_qtype, 0, qm.weight_group_size)
+            out3 = qm(x.detach())
+            od3 = out3.dequantize() if isinstance(out3, QTensor) else out3
+            ref3 = torch.nn.functional.linear(xin, new_q, qm.bias) if kind == "linear" else qm._conv_forward(xin, new_q, qm.bias)
+            if aq is not None:
+                ref3 = q.quantize_activation(ref3.dequantize() if isinstance(ref3, QTensor) else ref3, q.qtypes[aq], qm.output_scale).dequantize()
+            if bits_of(od3) != bits_of(ref3):
+                ctx.spec_failures.append(("C11:weight-update-through-data-not-reflected", dict(cfg)))
         # ---- frozen: no gradient for the weight
         if rng.random() < 0.5:
             freeze(model)
